@@ -128,7 +128,11 @@ func requiredTree(g *gen.G, d int) any {
 		return m
 	}
 	l := []any{}
-	for i := g.N(4); i > 0; i-- {
+	nl := g.N(4)
+	if d >= 3 && g.P(0.05) {
+		nl = 12 + g.N(30) // the large regime
+	}
+	for i := nl; i > 0; i-- {
 		l = append(l, requiredTree(g, d-1))
 	}
 	return l
@@ -376,6 +380,24 @@ func plainVal(g *gen.G, d int) any {
 	return l
 }
 
+// bigServices: a long list (16-45 entries) of similar maps with some entries twice
+// and, at the end, a stub that is a partial match of an entry near the front - sizes
+// at which an implementation may switch to a prefix-stripping or an indexed algorithm.
+func bigServices(g *gen.G) []any {
+	n := 16 + g.N(30)
+	l := make([]any, 0, n+3)
+	for i := 0; i < n; i++ {
+		l = append(l, map[string]any{"name": fmt.Sprintf("svc%d", i), "port": 8000 + i})
+	}
+	for d := 1 + g.N(3); d > 0; d-- {
+		l = append(l, gen.Clone(l[g.N(n)])) // duplicates
+	}
+	if g.P(0.5) {
+		l = append(l, "dup", "dup")
+	}
+	return l
+}
+
 // edit applies 1-3 random edits of the property's catalogue.
 func edit(g *gen.G, t map[string]any) map[string]any {
 	out := gen.Clone(t).(map[string]any)
@@ -501,9 +523,25 @@ func C15(r *Run) {
 	for i := 0; i < n; i++ {
 		base := plainMap(g, 3)
 		var target map[string]any
-		if g.P(0.06) {
+		switch {
+		case g.P(0.08):
+			// the large regime: a long list; the base ends with a stub that partially matches
+			// an entry of the unchanged head, the target drops it (and may change the tail)
+			svc := bigServices(g)
+			base["services"] = svc
 			target = gen.Clone(base).(map[string]any)
-		} else {
+			stubOf := svc[g.N(8)].(map[string]any)
+			base["services"] = append(append([]any{}, svc...), map[string]any{"name": stubOf["name"]})
+			if g.P(0.5) {
+				tl := target["services"].([]any)
+				target["services"] = append(tl[:len(tl):len(tl)], map[string]any{"name": "added"})
+			}
+			if g.P(0.3) {
+				target = edit(g, target)
+			}
+		case g.P(0.06):
+			target = gen.Clone(base).(map[string]any)
+		default:
 			target = edit(g, base)
 		}
 		kf := ""
@@ -658,6 +696,9 @@ func C16(r *Run) {
 	sem := make(chan struct{}, Cores())
 	for i := 0; i < n; i++ {
 		anc := plainMap(g, 3)
+		if g.P(0.08) {
+			anc["services"] = bigServices(g) // the large regime: > 32 entries with duplicates in every input
+		}
 		k := 2 + g.N(3)
 		raw := make([]any, k)
 		for j := range raw {
